@@ -131,6 +131,13 @@ func (t *ProgressTelemetry) track(namespace string, total int64, chIncrements ch
 }
 
 func (t *ProgressTelemetry) checkProgress() {
+	// Render raises its in-progress flag from its own goroutine; wait for it,
+	// otherwise the loop below can be skipped before rendering has begun and
+	// the verdict would be taken over whatever is registered at that instant
+	for !t.writer.IsRenderInProgress() {
+		time.Sleep(time.Millisecond)
+	}
+
 	ticker := time.NewTicker(trackerProgressCheck)
 
 	for t.writer.IsRenderInProgress() {
